@@ -9,6 +9,7 @@ import Driver.OpsEng
 import Driver.CallsEng
 import Driver.InvokeEng
 import Driver.CastsEng
+import Driver.FOpsEng
 import Driver.TypingEng
 import Driver.StructEng
 import Driver.SnapEng
@@ -25,7 +26,7 @@ def firstSome (fs : List (List String → Option String)) (t : List String) : Op
 
 def stepLine (s : St) (line : String) : St × String :=
   let t := toks line
-  match firstSome [Conv.step, PtrEng.step, RangeEng.step, IndexEng.step, MemEng.step, OpsEng.step, CallsEng.step, InvokeEng.step, CastsEng.step, TypingEng.step, StructEng.step, SnapEng.step, ThrEng.step'] t with
+  match firstSome [Conv.step, PtrEng.step, RangeEng.step, IndexEng.step, MemEng.step, OpsEng.step, CallsEng.step, InvokeEng.step, CastsEng.step, FOpsEng.step, TypingEng.step, StructEng.step, SnapEng.step, ThrEng.step'] t with
   | some r => (s, r)
   | none =>
   match TokEng.step s.tok t with
